@@ -1,29 +1,1383 @@
+// C20 harness: TLS verification and credential disclosure.
+//
+// Runs the real implementation (package gocql, via public API and the add-only verif_shim_c20.go) on
+//   - every combination of the TLS configuration options (setupTLSConfig, tlsConfigForAddr, WrapTLS), with
+//     CA / key-pair files written at run time (valid, unreadable, garbage) and real TLS handshakes against an
+//     in-process server over an in-memory connection;
+//   - connection set-up (OPTIONS / STARTUP / authentication) against a tiny scripted responder with its own
+//     frame writer, for every authenticator configuration;
+//
+// records (input, implementation output) as Coq correspondence cases for C20/Corr.v and evaluates the
+// property monitors (the documented table, "caller's config untouched", "file errors are errors",
+// "token only to an approved class, and it is SASL PLAIN", "no authenticator => no session") on the
+// implementation's own outputs.
 package main
 
 import (
-	"crypto/ecdsa"
-	"crypto/elliptic"
-	"crypto/rand"
+	"bufio"
+	"bytes"
+	"context"
 	"crypto/tls"
 	"crypto/x509"
-	"crypto/x509/pkix"
-	"encoding/pem"
+	"encoding/binary"
+	"encoding/json"
+	"errors"
 	"fmt"
-	"math/big"
+	"io"
+	"log"
+	"net"
 	"os"
+	"os/exec"
+	"path/filepath"
+	"strconv"
+	"strings"
 	"time"
 
 	"github.com/gocql/gocql"
+	"gocqlverif/hlib"
 )
 
+// ---------------------------------------------------------------------------------------------
+// scenarios of the CQL handshake (JSON-serialisable: they run in a worker process)
+
+const (
+	fSupported = iota
+	fReady
+	fAuthenticate
+	fAuthChallenge
+	fAuthSuccess
+	fError
+	fOther
+)
+
+type FrameSpec struct {
+	Kind int
+	Data []byte // class / challenge / success data
+	Code int    // error code
+}
+
+type ReplySpec struct {
+	Err  bool
+	Data []byte
+	Next bool
+}
+
+type AuthSpec struct {
+	Kind    int // 0 none, 1 password, 2 scripted
+	User    []byte
+	Pass    []byte
+	Allowed [][]byte
+	Script  []ReplySpec
+	SuccOK  bool
+}
+
+type Scenario struct {
+	Auth   AuthSpec
+	Frames []FrameSpec
+	Proto  int
+}
+
+type HsResult struct {
+	Code, Srv int
+	Toks      [][]byte
+	NOpt      int
+	NStart    int
+	Sent      int      // frames the responder actually sent
+	OtherReqs [][]byte // bodies of every request that is not AUTH_RESPONSE
+	ErrText   string
+}
+
+// record one request the responder received
+func (res *HsResult) record(op byte, body []byte) {
+	switch op {
+	case 0x05:
+		res.NOpt++
+		res.OtherReqs = append(res.OtherReqs, body)
+	case 0x01:
+		res.NStart++
+		res.OtherReqs = append(res.OtherReqs, body)
+	case 0x0F:
+		tok := []byte{}
+		if len(body) >= 4 {
+			l := int32(binary.BigEndian.Uint32(body))
+			if l >= 0 && int(l) <= len(body)-4 {
+				tok = body[4 : 4+l]
+			}
+		}
+		res.Toks = append(res.Toks, tok)
+	default:
+		res.OtherReqs = append(res.OtherReqs, body)
+	}
+}
+
+func frameTerm(f FrameSpec) string {
+	switch f.Kind {
+	case fSupported:
+		return "FSupported"
+	case fReady:
+		return "FReady"
+	case fAuthenticate:
+		return "FAuthenticate " + hlib.ZList(f.Data)
+	case fAuthChallenge:
+		return "FAuthChallenge " + hlib.ZList(f.Data)
+	case fAuthSuccess:
+		return "FAuthSuccess " + hlib.ZList(f.Data)
+	case fError:
+		return "FError " + hlib.Z(int64(f.Code))
+	}
+	return "FOther"
+}
+
+func framesTerm(fs []FrameSpec) string {
+	ss := make([]string, len(fs))
+	for i, f := range fs {
+		ss[i] = frameTerm(f)
+	}
+	return hlib.List(ss)
+}
+
+func bytesListTerm(l [][]byte) string {
+	ss := make([]string, len(l))
+	for i, b := range l {
+		ss[i] = hlib.ZList(b)
+	}
+	return hlib.List(ss)
+}
+
+func authTerm(a AuthSpec) string {
+	switch a.Kind {
+	case 0:
+		return "ANone"
+	case 1:
+		return fmt.Sprintf("(APassword %s %s %s)", hlib.ZList(a.User), hlib.ZList(a.Pass), bytesListTerm(a.Allowed))
+	}
+	ss := make([]string, len(a.Script))
+	for i, r := range a.Script {
+		if r.Err {
+			ss[i] = "RErr"
+		} else {
+			ss[i] = fmt.Sprintf("RResp %s %s", hlib.ZList(r.Data), hlib.Bool(r.Next))
+		}
+	}
+	return fmt.Sprintf("(AScript %s %s)", hlib.List(ss), hlib.Bool(a.SuccOK))
+}
+
+// scripted user Authenticator: answers successive Challenge calls from a list
+type scriptAuth struct {
+	replies []ReplySpec
+	pos     int
+	succOK  bool
+}
+
+func (a *scriptAuth) Challenge(req []byte) ([]byte, gocql.Authenticator, error) {
+	if a.pos >= len(a.replies) {
+		return nil, nil, errors.New("scripted authenticator: no more replies")
+	}
+	r := a.replies[a.pos]
+	a.pos++
+	if r.Err {
+		return nil, nil, errors.New("scripted authenticator: error")
+	}
+	var next gocql.Authenticator
+	if r.Next {
+		next = a
+	}
+	d := r.Data
+	if d == nil {
+		d = []byte{}
+	}
+	return d, next, nil
+}
+
+func (a *scriptAuth) Success(data []byte) error {
+	if a.succOK {
+		return nil
+	}
+	return errors.New("scripted authenticator: success rejected")
+}
+
+func strs(l [][]byte) []string {
+	var out []string
+	for _, b := range l {
+		out = append(out, string(b))
+	}
+	return out
+}
+
+func authenticatorOf(a AuthSpec) gocql.Authenticator {
+	switch a.Kind {
+	case 1:
+		return gocql.PasswordAuthenticator{Username: string(a.User), Password: string(a.Pass), AllowedAuthenticators: strs(a.Allowed)}
+	case 2:
+		return &scriptAuth{replies: a.Script, succOK: a.SuccOK}
+	}
+	return nil
+}
+
+// ---------------------------------------------------------------------------------------------
+// the scripted responder: own minimal frame reader/writer (9-byte v3/v4 header + body)
+
+type responder struct {
+	frames []FrameSpec
+	res    HsResult
+	onReq  func(op byte, body []byte) // called as soon as a request has been read (the worker process prints it)
+}
+
+func appendString(b []byte, s []byte) []byte {
+	b = append(b, byte(len(s)>>8), byte(len(s)))
+	return append(b, s...)
+}
+
+func appendBytes(b []byte, d []byte) []byte {
+	var l [4]byte
+	binary.BigEndian.PutUint32(l[:], uint32(len(d)))
+	b = append(b, l[:]...)
+	return append(b, d...)
+}
+
+func encodeFrame(f FrameSpec, proto byte, stream uint16) []byte {
+	var op byte
+	var body []byte
+	switch f.Kind {
+	case fSupported:
+		op = 0x06
+		body = append(body, 0, 1)
+		body = appendString(body, []byte("CQL_VERSION"))
+		body = append(body, 0, 1)
+		body = appendString(body, []byte("3.0.0"))
+	case fReady:
+		op = 0x02
+	case fAuthenticate:
+		op = 0x03
+		body = appendString(body, f.Data)
+	case fAuthChallenge:
+		op = 0x0E
+		body = appendBytes(body, f.Data)
+	case fAuthSuccess:
+		op = 0x10
+		body = appendBytes(body, f.Data)
+	case fError:
+		op = 0x00
+		var c [4]byte
+		binary.BigEndian.PutUint32(c[:], uint32(f.Code))
+		body = append(body, c[:]...)
+		body = appendString(body, []byte("scripted error"))
+	default: // RESULT void
+		op = 0x08
+		body = append(body, 0, 0, 0, 1)
+	}
+	h := []byte{0x80 | proto, 0, byte(stream >> 8), byte(stream), op, 0, 0, 0, 0}
+	binary.BigEndian.PutUint32(h[5:], uint32(len(body)))
+	return append(h, body...)
+}
+
+// serve answers each request with the next scripted frame on the request's stream; when the script is
+// exhausted it closes the connection.
+func (r *responder) serve(c net.Conn) {
+	defer c.Close()
+	next := 0
+	for {
+		var h [9]byte
+		if _, err := io.ReadFull(c, h[:]); err != nil {
+			return
+		}
+		n := binary.BigEndian.Uint32(h[5:])
+		if n > 1<<20 {
+			return
+		}
+		body := make([]byte, n)
+		if _, err := io.ReadFull(c, body); err != nil {
+			return
+		}
+		if r.onReq != nil {
+			r.onReq(h[4], body)
+		}
+		r.res.record(h[4], body)
+		if next >= len(r.frames) {
+			return
+		}
+		stream := uint16(h[2])<<8 | uint16(h[3])
+		if _, err := c.Write(encodeFrame(r.frames[next], h[0]&0x7f, stream)); err != nil {
+			return
+		}
+		next++
+		r.res.Sent = next
+	}
+}
+
+// ---------------------------------------------------------------------------------------------
+// driving gocql's connection set-up
+
+var silent = log.New(io.Discard, "", 0)
+
+type pipeDialer struct {
+	server func(net.Conn) // run in a goroutine on the server end
+	dialed int
+	done   chan struct{}
+}
+
+func (d *pipeDialer) DialContext(ctx context.Context, network, addr string) (net.Conn, error) {
+	c, s := newPipe()
+	d.dialed++
+	d.done = make(chan struct{})
+	done := d.done
+	go func() {
+		defer close(done)
+		d.server(s)
+	}()
+	return c, nil
+}
+
+func (d *pipeDialer) wait() bool {
+	if d.done == nil {
+		return true
+	}
+	select {
+	case <-d.done:
+		return true
+	case <-time.After(20 * time.Second):
+		return false
+	}
+}
+
+func classify(established bool, err error) (int, int) {
+	if err == nil {
+		if established {
+			return 0, 0
+		}
+		return 4, 0
+	}
+	msg := err.Error()
+	if strings.HasPrefix(msg, "authentication required (using") {
+		return 1, 0
+	}
+	if strings.HasPrefix(msg, "unexpected authenticator") {
+		return 2, 0
+	}
+	var re gocql.RequestError
+	if errors.As(err, &re) {
+		return 3, re.Code()
+	}
+	return 4, 0
+}
+
+func newCluster(s Scenario, d gocql.Dialer) *gocql.ClusterConfig {
+	cfg := gocql.NewCluster("10.1.2.3")
+	cfg.ProtoVersion = s.Proto
+	cfg.ConnectTimeout = 10 * time.Second
+	cfg.Timeout = 10 * time.Second
+	cfg.Dialer = d
+	cfg.Logger = silent
+	if a := authenticatorOf(s.Auth); a != nil {
+		cfg.Authenticator = a
+	}
+	return cfg
+}
+
+// runScenario: plain (no TLS) connection set-up against the scripted responder
+func runScenario(s Scenario, onReq func(byte, []byte)) HsResult {
+	r := &responder{frames: s.Frames, onReq: onReq}
+	d := &pipeDialer{server: r.serve}
+	cfg := newCluster(s, d)
+	ok, err := gocql.VerifC20Connect(context.Background(), cfg, "", net.ParseIP("10.1.2.3"), 9042)
+	if !d.wait() {
+		r.res.ErrText = "responder did not terminate"
+	}
+	r.res.Code, r.res.Srv = classify(ok, err)
+	if err != nil {
+		r.res.ErrText += err.Error()
+	}
+	return r.res
+}
+
+// A panic on a driver goroutine (e.g. the nil challenger dereferenced in authenticateHandshake) cannot be
+// recovered in-process, so all handshake scenarios run in a worker process: it reports every request the
+// responder receives and every result as it happens; when it dies, the scenario it was running is the
+// crashing one, and a new worker continues after it.
+func workerMain(path string) {
+	data, err := os.ReadFile(path)
+	if err != nil {
+		fmt.Println("BAD", err)
+		os.Exit(3)
+	}
+	var scns []Scenario
+	if err := json.Unmarshal(data, &scns); err != nil {
+		fmt.Println("BAD", err)
+		os.Exit(3)
+	}
+	w := bufio.NewWriter(os.Stdout)
+	for i, s := range scns {
+		fmt.Fprintf(w, "BEGIN %d\n", i)
+		w.Flush()
+		res := runScenario(s, func(op byte, body []byte) {
+			fmt.Fprintf(w, "REQ %d %d %x\n", i, op, body)
+			w.Flush()
+		})
+		js, _ := json.Marshal(res)
+		fmt.Fprintf(w, "RES %d %s\n", i, js)
+		w.Flush()
+	}
+	os.Exit(0)
+}
+
+func runBatch(dir string, scns []Scenario) (results []HsResult, workers int) {
+	results = make([]HsResult, len(scns))
+	start := 0
+	for start < len(scns) {
+		workers++
+		path := filepath.Join(dir, "batch.json")
+		js, _ := json.Marshal(scns[start:])
+		must(os.WriteFile(path, js, 0o644))
+		cmd := exec.Command(os.Args[0])
+		cmd.Env = append(os.Environ(), "C20_WORKER="+path)
+		var stdout, stderr bytes.Buffer
+		cmd.Stdout, cmd.Stderr = &stdout, &stderr
+		runErr := cmd.Run()
+		done := 0
+		var partial HsResult
+		begun := -1
+		sc := bufio.NewScanner(&stdout)
+		sc.Buffer(make([]byte, 1<<20), 1<<26)
+		for sc.Scan() {
+			line := sc.Text()
+			switch {
+			case strings.HasPrefix(line, "BEGIN "):
+				fmt.Sscanf(line[6:], "%d", &begun)
+				partial = HsResult{}
+			case strings.HasPrefix(line, "REQ "):
+				var i, op int
+				var body []byte
+				parts := strings.SplitN(line[4:], " ", 3)
+				i, _ = strconv.Atoi(parts[0])
+				op, _ = strconv.Atoi(parts[1])
+				if len(parts) > 2 {
+					fmt.Sscanf(parts[2], "%x", &body)
+				}
+				if body == nil {
+					body = []byte{}
+				}
+				if i == begun {
+					partial.record(byte(op), body)
+				}
+			case strings.HasPrefix(line, "RES "):
+				sp := strings.IndexByte(line[4:], ' ')
+				i, _ := strconv.Atoi(line[4 : 4+sp])
+				var r HsResult
+				if json.Unmarshal([]byte(line[4+sp+1:]), &r) == nil && start+i < len(results) {
+					results[start+i] = r
+					done = i + 1
+				}
+			}
+		}
+		if start+done >= len(scns) {
+			break
+		}
+		// the worker died while running scenario start+done
+		r := partial
+		if begun != done {
+			r = HsResult{}
+		}
+		r.Sent = len(scns[start+done].Frames)
+		if runErr != nil && strings.Contains(stderr.String(), "nil pointer dereference") {
+			r.Code = 5
+		} else {
+			r.Code = 6 // unclassifiable: reported, and will not match the model
+		}
+		r.ErrText = "worker process: " + firstLines(stderr.String(), 6)
+		results[start+done] = r
+		start += done + 1
+	}
+	return results, workers
+}
+
+func firstLines(s string, n int) string {
+	l := strings.SplitN(s, "\n", n+1)
+	if len(l) > n {
+		l = l[:n]
+	}
+	return strings.Join(l, " | ")
+}
+
+// ---------------------------------------------------------------------------------------------
+// observing tls.Config values
+
+type cfgObs struct {
+	Insecure bool
+	Name     string
+	Roots    []int // nil: RootCAs == nil ; otherwise ids of the harness authorities in the pool
+	HasRoots bool
+	NCerts   int
+}
+
+func (p *pki) obs(c *tls.Config) *cfgObs {
+	if c == nil {
+		return nil
+	}
+	o := &cfgObs{Insecure: c.InsecureSkipVerify, Name: c.ServerName, NCerts: len(c.Certificates)}
+	if c.RootCAs != nil {
+		o.HasRoots = true
+		o.Roots = p.poolIDs(c.RootCAs)
+	}
+	return o
+}
+
+func obsTerm(o *cfgObs) string {
+	if o == nil {
+		return "None"
+	}
+	return hlib.Some(obsTermBare(o))
+}
+
+func obsTermBare(o *cfgObs) string {
+	roots := "None"
+	if o.HasRoots {
+		ids := make([]int64, len(o.Roots))
+		for i, x := range o.Roots {
+			ids[i] = int64(x)
+		}
+		roots = hlib.Some(hlib.ZListI(ids))
+	}
+	return fmt.Sprintf("(mkObs %s %s %s %d)", hlib.Bool(o.Insecure), hlib.ZList([]byte(o.Name)), roots, o.NCerts)
+}
+
+func obsEq(a, b *cfgObs) bool {
+	if a == nil || b == nil {
+		return a == b
+	}
+	if a.Insecure != b.Insecure || a.Name != b.Name || a.HasRoots != b.HasRoots || a.NCerts != b.NCerts || len(a.Roots) != len(b.Roots) {
+		return false
+	}
+	for i := range a.Roots {
+		if a.Roots[i] != b.Roots[i] {
+			return false
+		}
+	}
+	return true
+}
+
+// the documented table (doc.go "Transport layer security"), transcribed row by row: result true = "verify host"
+func documented(configNil bool, insecureSkipVerify bool, enableHostVerification bool) bool {
+	type row struct {
+		cfg string
+		hv  bool
+		res bool
+	}
+	rows := []row{
+		{"nil", false, false},
+		{"nil", true, true},
+		{"false", false, true},
+		{"true", false, false},
+		{"false", true, true},
+		{"true", true, true},
+	}
+	col := "nil"
+	if !configNil {
+		col = strconv.FormatBool(insecureSkipVerify)
+	}
+	for _, r := range rows {
+		if r.cfg == col && r.hv == enableHostVerification {
+			return r.res
+		}
+	}
+	panic("row missing")
+}
+
+// ---------------------------------------------------------------------------------------------
+// file fixtures
+
+type caFile struct {
+	path   string
+	set    bool
+	read   bool  // ReadFile succeeds
+	certs  []int // authorities in the file
+	kind   string
+	class  int // 0 absent, 1 valid, 2 unreadable, 3 garbage
+	fcaStr string
+}
+
+type kpFile struct {
+	cert, key string
+	ok        bool
+	kind      string
+	class     int // 0 absent, 1 cert only, 2 key only, 3 both valid, 4 both set invalid
+}
+
+func (c caFile) fcaTerm() string {
+	if !c.read {
+		return "None"
+	}
+	ids := make([]int64, len(c.certs))
+	for i, x := range c.certs {
+		ids[i] = int64(x)
+	}
+	return hlib.Some(hlib.ZListI(ids))
+}
+
+type sslCase struct {
+	configNil bool
+	insecure  bool
+	name      string
+	hasRoots  bool
+	roots     []int
+	ncerts    int
+	hv        bool
+	ca        caFile
+	kp        kpFile
+}
+
+func (p *pki) buildConfig(sc sslCase) *tls.Config {
+	if sc.configNil {
+		return nil
+	}
+	c := &tls.Config{InsecureSkipVerify: sc.insecure, ServerName: sc.name, MinVersion: tls.VersionTLS12}
+	if sc.hasRoots {
+		c.RootCAs = x509.NewCertPool()
+		for _, id := range sc.roots {
+			c.RootCAs.AddCert(p.cas[id].cert)
+		}
+	}
+	for i := 0; i < sc.ncerts; i++ {
+		c.Certificates = append(c.Certificates, p.clientCert)
+	}
+	return c
+}
+
+func (p *pki) sslOptions(sc sslCase) (*gocql.SslOptions, *tls.Config) {
+	c := p.buildConfig(sc)
+	return &gocql.SslOptions{Config: c, EnableHostVerification: sc.hv, CaPath: sc.ca.path, CertPath: sc.kp.cert, KeyPath: sc.kp.key}, c
+}
+
+func (p *pki) sslTerm(sc sslCase, before *cfgObs) string {
+	return fmt.Sprintf("(mkSsl %s %s %s %s %s %s %s)", obsTerm(before), hlib.Bool(sc.hv), hlib.Bool(sc.ca.path != ""),
+		hlib.Bool(sc.kp.cert != ""), hlib.Bool(sc.kp.key != ""), sc.ca.fcaTerm(), hlib.Bool(sc.kp.ok))
+}
+
+func setupErrCode(err error) int {
+	if err == nil {
+		return 0
+	}
+	m := err.Error()
+	switch {
+	case strings.Contains(m, "unable to open CA certs"):
+		return 1
+	case strings.Contains(m, "failed parsing or CA certs"):
+		return 2
+	case strings.Contains(m, "unable to load X509 key pair"):
+		return 3
+	}
+	return 9
+}
+
+func contains(l []int, x int) bool {
+	for _, y := range l {
+		if y == x {
+			return true
+		}
+	}
+	return false
+}
+
+// ---------------------------------------------------------------------------------------------
+
 func main() {
-	key, _ := ecdsa.GenerateKey(elliptic.P256(), rand.Reader)
-	tmpl := &x509.Certificate{SerialNumber: big.NewInt(1), Subject: pkix.Name{CommonName: "ca1"}, NotBefore: time.Now().Add(-time.Hour), NotAfter: time.Now().Add(time.Hour), IsCA: true, BasicConstraintsValid: true, KeyUsage: x509.KeyUsageCertSign}
-	der, _ := x509.CreateCertificate(rand.Reader, tmpl, tmpl, &key.PublicKey, key)
-	os.WriteFile("/verif/work/C20-scratch/ca.pem", pem.EncodeToMemory(&pem.Block{Type: "CERTIFICATE", Bytes: der}), 0o644)
-	pool := x509.NewCertPool()
-	cfg := &tls.Config{RootCAs: pool}
-	fmt.Println("before", len(pool.Subjects()))
-	out, err := gocql.VerifC20SetupTLSConfig(&gocql.SslOptions{Config: cfg, CaPath: "/verif/work/C20-scratch/ca.pem"})
-	fmt.Println("after", len(pool.Subjects()), err, out.RootCAs == pool, out == cfg)
+	if path := os.Getenv("C20_WORKER"); path != "" {
+		workerMain(path)
+		return
+	}
+	o := hlib.Init("C20")
+	go func() { // watchdog: a hang must not look like a pass
+		time.Sleep(25 * time.Minute)
+		fmt.Fprintln(os.Stderr, "c20 harness: watchdog expired")
+		os.Exit(4)
+	}()
+	r := o.Rng
+	o.Rule = "TLS: every combination of {Config nil | InsecureSkipVerify x ServerName x RootCAs} x EnableHostVerification x CA file {absent, valid, unreadable, garbage} x " +
+		"key pair {absent, cert only, key only, valid, invalid} (concrete variants of files/pools drawn per combination; all variants in the thorough tier), " +
+		"addresses as name/IPv4/IPv6 with port and malformed, real TLS handshakes with right / wrong-name / untrusted certificates; " +
+		"authentication: all server scripts up to length 2 (3 in thorough) over {SUPPORTED, READY, AUTHENTICATE(class), AUTH_CHALLENGE, AUTH_SUCCESS, ERROR, RESULT} " +
+		"x 10 authenticator configurations + random longer scripts, class names from the default list / custom lists / near misses / arbitrary bytes, " +
+		"user names and passwords empty, ASCII, UTF-8, with NUL; non-trivial = some option set or Config present (TLS), script longer than one frame (authentication)"
+	fixdir := filepath.Join(o.Dir, "fixtures")
+	os.RemoveAll(fixdir)
+	os.MkdirAll(fixdir, 0o755)
+	p := newPKI(fixdir, r)
+	thorough := o.Scale > 1
+
+	// ===== 1. setupTLSConfig over the whole option domain =========================================
+	caVariants := p.caVariants()
+	kpVariants := p.kpVariants()
+	byClassCA := map[int][]caFile{}
+	for _, c := range caVariants {
+		byClassCA[c.class] = append(byClassCA[c.class], c)
+	}
+	byClassKP := map[int][]kpFile{}
+	for _, k := range kpVariants {
+		byClassKP[k.class] = append(byClassKP[k.class], k)
+	}
+	poolChoices := [][]int{{}, {1}, {2}, {1, 2}}
+	var sslCases []sslCase
+	type cfgShape struct {
+		configNil, insecure, named, hasRoots bool
+	}
+	shapes := []cfgShape{{configNil: true}}
+	for _, ins := range []bool{false, true} {
+		for _, named := range []bool{false, true} {
+			for _, hr := range []bool{false, true} {
+				shapes = append(shapes, cfgShape{false, ins, named, hr})
+			}
+		}
+	}
+	for _, sh := range shapes {
+		for _, hv := range []bool{false, true} {
+			for cac := 0; cac < 4; cac++ {
+				for kpc := 0; kpc < 5; kpc++ {
+					var cas []caFile
+					var kps []kpFile
+					var pools [][]int
+					var ncs []int
+					if thorough {
+						cas, kps = byClassCA[cac], byClassKP[kpc]
+						pools, ncs = poolChoices, []int{0, 1}
+						if !sh.hasRoots {
+							pools = [][]int{nil}
+						}
+						if sh.configNil {
+							ncs = []int{0}
+						}
+					} else {
+						// two concrete variants per abstract combination
+						for k := 0; k < 2; k++ {
+							cas = append(cas, byClassCA[cac][r.Intn(len(byClassCA[cac]))])
+						}
+						kps = []kpFile{byClassKP[kpc][r.Intn(len(byClassKP[kpc]))]}
+						pools = [][]int{poolChoices[r.Intn(len(poolChoices))]}
+						ncs = []int{r.Intn(2)}
+						if sh.configNil {
+							ncs = []int{0}
+						}
+					}
+					seen := map[string]bool{}
+					for _, ca := range cas {
+						for _, kp := range kps {
+							for _, pl := range pools {
+								for _, nc := range ncs {
+									key := fmt.Sprint(ca.kind, kp.kind, pl, nc)
+									if seen[key] {
+										continue
+									}
+									seen[key] = true
+									sc := sslCase{configNil: sh.configNil, insecure: sh.insecure, hasRoots: sh.hasRoots, hv: hv, ca: ca, kp: kp, ncerts: nc}
+									if sh.named {
+										sc.name = "explicit.example"
+									}
+									if sh.hasRoots {
+										sc.roots = pl
+									}
+									sslCases = append(sslCases, sc)
+								}
+							}
+						}
+					}
+				}
+			}
+		}
+	}
+	o.Extra["exhaustive"] = true
+	o.Extra["tls_option_combinations"] = len(shapes) * 2 * 4 * 5
+	for _, sc := range sslCases {
+		opts, caller := p.sslOptions(sc)
+		before := p.obs(caller)
+		var callerPool *x509.CertPool
+		if caller != nil {
+			callerPool = caller.RootCAs
+		}
+		res, err := gocql.VerifC20SetupTLSConfig(opts)
+		after := p.obs(caller)
+		code := setupErrCode(err)
+		aliased := res != nil && res == caller
+		resObs := p.obs(res)
+		nontrivial := !sc.configNil || sc.ca.path != "" || sc.kp.cert != "" || sc.kp.key != ""
+		idx := o.Case("setup/ca-"+[]string{"absent", "valid", "unreadable", "garbage"}[sc.ca.class]+"/keypair-"+[]string{"absent", "cert-only", "key-only", "valid", "invalid"}[sc.kp.class], nontrivial, fmt.Sprintf("CSetup %s %d %s %s %s", p.sslTerm(sc, before), code, obsTerm(resObs), hlib.Bool(aliased), obsTerm(after)))
+		in := map[string]interface{}{"config_nil": sc.configNil, "insecure_skip_verify": sc.insecure, "server_name": sc.name, "root_cas": sc.roots, "has_root_cas": sc.hasRoots,
+			"enable_host_verification": sc.hv, "ca": sc.ca.kind, "keypair": sc.kp.kind}
+		// --- monitors (spec side, on the implementation's outputs only)
+		if code == 9 {
+			o.Violate(idx, "setup-unknown-error", "", fmt.Sprintf("unclassified error %v", err), in)
+		}
+		if err == nil {
+			if res == nil {
+				o.Violate(idx, "setup-nil-config", "", "no error and no configuration", in)
+				continue
+			}
+			if want := documented(sc.configNil, sc.insecure, sc.hv); (!res.InsecureSkipVerify) != want {
+				o.Violate(idx, "documented-table", "", fmt.Sprintf("documented result verify=%v, effective InsecureSkipVerify=%v", want, res.InsecureSkipVerify), in)
+			}
+			if res.ServerName != sc.name {
+				o.Violate(idx, "setup-server-name", "", fmt.Sprintf("ServerName %q became %q", sc.name, res.ServerName), in)
+			}
+			if aliased {
+				o.Violate(idx, "setup-returns-callers-config", "", "the returned configuration is the caller's own object", in)
+			}
+			// files that were named must really have been loaded
+			if sc.ca.path != "" {
+				if !sc.ca.read || len(sc.ca.certs) == 0 {
+					o.Violate(idx, "ca-error-swallowed", "", "CaPath names an unreadable / certificate-free file and no error was returned", in)
+				} else if res.RootCAs == nil {
+					o.Violate(idx, "ca-not-loaded", "", "CaPath set, no error, RootCAs is nil", in)
+				} else {
+					got := p.poolIDs(res.RootCAs)
+					for _, id := range sc.ca.certs {
+						if !contains(got, id) {
+							o.Violate(idx, "ca-not-loaded", "", fmt.Sprintf("authority %d of the CA file is not in RootCAs %v", id, got), in)
+						}
+					}
+				}
+			}
+			if sc.kp.cert != "" || sc.kp.key != "" {
+				if !sc.kp.ok {
+					o.Violate(idx, "keypair-error-swallowed", "", "invalid key pair files and no error", in)
+				} else if len(res.Certificates) != sc.ncerts+1 {
+					o.Violate(idx, "keypair-not-loaded", "", fmt.Sprintf("len(Certificates) = %d, want %d", len(res.Certificates), sc.ncerts+1), in)
+				}
+			}
+		} else {
+			// an error must have a cause in the files
+			caBad := sc.ca.path != "" && (!sc.ca.read || len(sc.ca.certs) == 0)
+			kpBad := (sc.kp.cert != "" || sc.kp.key != "") && !sc.kp.ok
+			if !caBad && !kpBad {
+				o.Violate(idx, "setup-spurious-error", "", fmt.Sprintf("error %v with valid files", err), in)
+			}
+		}
+		// the caller's own tls.Config
+		if caller != nil {
+			if caller.RootCAs != callerPool {
+				o.Violate(idx, "caller-config-untouched", "", "the caller's RootCAs pointer changed", in)
+			}
+			callerUntouched(o, idx, sc, before, after, in)
+		}
+	}
+
+	// ===== 2. tlsConfigForAddr ====================================================================
+	addrs := []string{"node1.cass.example:9042", "10.1.2.3:9042", "[fd00::1:2]:9042", "node1", "", ":9042", "fd00::1:2", "a:b:c", "host:", "[::1]", "x:1:", "näme.example:1"}
+	for i := 0; i < 12*o.Scale; i++ {
+		n := r.Intn(12)
+		b := make([]byte, n)
+		for j := range b {
+			b[j] = "ab:.[]1\xc3"[r.Intn(8)]
+		}
+		addrs = append(addrs, string(b))
+	}
+	for _, ins := range []bool{false, true} {
+		for _, name := range []string{"", "explicit.example", "x"} {
+			for _, hr := range []bool{false, true} {
+				for _, addr := range addrs {
+					sc := sslCase{insecure: ins, name: name, hasRoots: hr, roots: []int{1}, ncerts: 1}
+					caller := p.buildConfig(sc)
+					before := p.obs(caller)
+					res := gocql.VerifC20TLSConfigForAddr(caller, addr)
+					after := p.obs(caller)
+					same := res == caller
+					idx := o.Case("for-addr", addr != "", fmt.Sprintf("CForAddr %s %s %s %s %s", obsTermBare(before), hlib.ZList([]byte(addr)), obsTermBare(p.obs(res)), hlib.Bool(same), obsTermBare(after)))
+					in := map[string]interface{}{"insecure_skip_verify": ins, "server_name": name, "addr": addr}
+					if !obsEq(before, after) {
+						o.Violate(idx, "caller-config-untouched", "", fmt.Sprintf("tlsConfigForAddr changed its argument: %+v -> %+v", *before, *after), in)
+					}
+					if res.InsecureSkipVerify != ins {
+						o.Violate(idx, "for-addr-verification-changed", "", "InsecureSkipVerify differs from the input's", in)
+					}
+					if name != "" && res.ServerName != name {
+						o.Violate(idx, "explicit-server-name-kept", "", fmt.Sprintf("ServerName %q replaced by %q", name, res.ServerName), in)
+					}
+					if ins && res.ServerName != name {
+						o.Violate(idx, "name-set-when-not-verifying", "", fmt.Sprintf("ServerName became %q", res.ServerName), in)
+					}
+					if !ins && name == "" {
+						// the host part of host:port as net.SplitHostPort sees it (where it is well-formed)
+						if h, _, err := net.SplitHostPort(addr); err == nil {
+							want := h
+							if strings.Contains(h, ":") {
+								want = "[" + h + "]"
+							}
+							if res.ServerName != want {
+								o.Violate(idx, "server-name-is-dialled-host", "", fmt.Sprintf("addr %q: ServerName %q, want %q", addr, res.ServerName, want), in)
+							}
+						}
+					}
+				}
+			}
+		}
+	}
+
+	// ===== 3. HostnameAndPort (ties Spec.join_host_port to net.JoinHostPort) ====================
+	type hostForm struct {
+		hostname string
+		ip       net.IP
+		names    []string // what the dialled name is expected to be matched against
+	}
+	hostForms := []hostForm{
+		{"node1.cass.example", net.ParseIP("10.1.2.3"), nil},
+		{"", net.ParseIP("10.1.2.3"), nil},
+		{"", net.ParseIP("fd00::1:2"), nil},
+	}
+	joinHosts := []hostForm{{"localhost", net.ParseIP("127.0.0.1"), nil}, {"", net.ParseIP("::1"), nil}, {"h-" + string(rune('a'+r.Intn(26))), net.ParseIP("192.168.0.9"), nil}, {"fe80::1", net.ParseIP("10.0.0.1"), nil}}
+	for _, hf := range append(append([]hostForm{}, hostForms...), joinHosts...) {
+		for _, port := range []int{9042, 1, 65535, 19142} {
+			out := gocql.VerifC20HostnameAndPort(hf.hostname, hf.ip, port)
+			hn := hf.hostname
+			if hn == "" {
+				hn = hf.ip.String()
+			}
+			o.Case("join", true, fmt.Sprintf("CJoin %s %s %s", hlib.ZList([]byte(hn)), hlib.ZList([]byte(strconv.Itoa(port))), hlib.ZList([]byte(out))))
+		}
+	}
+
+	// ===== 4. WrapTLS against an in-process TLS server ============================================
+	serverCerts := p.serverCerts()
+	wrapN := 0
+	for _, ins := range []bool{false, true} {
+		for _, name := range []string{"", "node1.cass.example", "other.example"} {
+			for _, roots := range [][]int{nil, {1}, {2}, {1, 2}} {
+				for _, hf := range hostForms {
+					for _, sv := range serverCerts {
+						if !thorough && r.Intn(100) >= 45 {
+							continue
+						}
+						sc := sslCase{insecure: ins, name: name, hasRoots: roots != nil, roots: roots}
+						caller := p.buildConfig(sc)
+						before := p.obs(caller)
+						addr := gocql.VerifC20HostnameAndPort(hf.hostname, hf.ip, 9042)
+						ok, wrapped, _ := wrapOnce(caller, addr, sv)
+						after := p.obs(caller)
+						wrapN++
+						idx := o.Case("wrap-tls", true, fmt.Sprintf("CWrap %s %s %d %s %s %s %s", obsTerm(before), hlib.ZList([]byte(addr)), sv.issuer, strListTerm(sv.names), hlib.Bool(ok), hlib.Bool(wrapped), obsTerm(after)))
+						in := map[string]interface{}{"insecure_skip_verify": ins, "server_name": name, "root_cas": roots, "addr": addr, "server_cert": sv.kind}
+						if !obsEq(before, after) {
+							o.Violate(idx, "caller-config-untouched", "", fmt.Sprintf("WrapTLS changed the caller's config %+v -> %+v", *before, *after), in)
+						}
+						// verification really happened when the configuration says so
+						if !ins && ok {
+							expect := name
+							if expect == "" {
+								expect = hf.hostname
+								if expect == "" {
+									expect = hf.ip.String()
+								}
+							}
+							if !contains(roots, sv.issuer) || !containsStr(sv.names, expect) {
+								o.Violate(idx, "handshake-accepted-unverified", "", fmt.Sprintf("handshake succeeded with certificate %s (issuer %d, names %v) for %q with roots %v", sv.kind, sv.issuer, sv.names, expect, roots), in)
+							}
+						}
+						if ins && !ok {
+							o.Violate(idx, "handshake-rejected-insecure", "", "InsecureSkipVerify handshake failed", in)
+						}
+						if !ins && !ok {
+							expect := name
+							if expect == "" {
+								expect = hf.hostname
+								if expect == "" {
+									expect = hf.ip.String()
+								}
+							}
+							if contains(roots, sv.issuer) && containsStr(sv.names, expect) {
+								o.Violate(idx, "valid-server-rejected", "", fmt.Sprintf("certificate %s is valid for %q under authorities %v, yet the handshake failed", sv.kind, expect, roots), in)
+							}
+						}
+					}
+				}
+			}
+		}
+	}
+	{ // nil config: the connection is not wrapped
+		ok, wrapped, _ := wrapOnce(nil, "node1.cass.example:9042", serverCerts[0])
+		o.Case("wrap-tls", true, fmt.Sprintf("CWrap None %s %d %s %s %s None", hlib.ZList([]byte("node1.cass.example:9042")), serverCerts[0].issuer, strListTerm(serverCerts[0].names), hlib.Bool(ok), hlib.Bool(wrapped)))
+	}
+	o.Extra["tls_handshakes"] = wrapN
+
+	// ===== 5. approve / PasswordAuthenticator.Challenge ===========================================
+	defaults := gocql.VerifC20DefaultApproved()
+	{
+		var l [][]byte
+		for _, s := range defaults {
+			l = append(l, []byte(s))
+		}
+		o.Case("defaults", true, "CDefaults "+bytesListTerm(l))
+	}
+	classGen := func() []byte {
+		switch r.Intn(9) {
+		case 0, 1:
+			return []byte(defaults[r.Intn(len(defaults))])
+		case 2:
+			d := []byte(defaults[r.Intn(len(defaults))])
+			switch r.Intn(5) {
+			case 0:
+				return d[:len(d)-1]
+			case 1:
+				return append(d, 'x')
+			case 2:
+				return bytes.ToLower(d)
+			case 3:
+				d[r.Intn(len(d))] ^= 1
+				return d
+			}
+			return append([]byte(" "), d...)
+		case 3:
+			return []byte("com.example.auth.CustomAuthenticator")
+		case 4:
+			return []byte("org.example.Other")
+		case 5:
+			return []byte{}
+		case 6:
+			return []byte("PasswordAuthenticator")
+		case 7:
+			return r.Bytes(1 + r.Intn(6))
+		}
+		return []byte("org.apache.cassandra.auth.AllowAllAuthenticator")
+	}
+	allowedGen := func(cls []byte) [][]byte {
+		switch r.Intn(6) {
+		case 0, 1:
+			return nil // default list
+		case 2:
+			return [][]byte{cls}
+		case 3:
+			return [][]byte{[]byte("com.example.auth.CustomAuthenticator"), []byte("org.example.Other")}
+		case 4:
+			return [][]byte{[]byte("x"), cls, []byte("")}
+		}
+		return [][]byte{[]byte(defaults[r.Intn(len(defaults))])}
+	}
+	credGen := func() []byte {
+		switch r.Intn(8) {
+		case 0:
+			return []byte{}
+		case 1:
+			return []byte("cassandra")
+		case 2:
+			return []byte("пароль-密碼-🔑")
+		case 3:
+			return []byte("a\x00b")
+		case 4:
+			return r.Bytes(1 + r.Intn(20))
+		case 5:
+			return []byte("s3cr3t-" + strconv.Itoa(r.Intn(100000)))
+		case 6:
+			return bytes.Repeat([]byte("L"), 300)
+		}
+		return []byte("user@example.com")
+	}
+	approvedBy := func(cls []byte, allowed [][]byte) bool { // the property's words
+		list := allowed
+		if len(list) == 0 {
+			list = nil
+			for _, d := range defaults {
+				list = append(list, []byte(d))
+			}
+		}
+		for _, a := range list {
+			if bytes.Equal(a, cls) {
+				return true
+			}
+		}
+		return false
+	}
+	plainToken := func(u, pw []byte) []byte { // RFC 4616 with empty authzid
+		t := []byte{0}
+		t = append(t, u...)
+		t = append(t, 0)
+		return append(t, pw...)
+	}
+	for i := 0; i < 120*o.Scale; i++ {
+		cls := classGen()
+		allowed := allowedGen(cls)
+		got := gocql.VerifC20Approve(string(cls), strs(allowed))
+		idx := o.Case("approve", true, fmt.Sprintf("CApprove %s %s %s", hlib.ZList(cls), bytesListTerm(allowed), hlib.Bool(got)))
+		if got != approvedBy(cls, allowed) {
+			o.Violate(idx, "approve-is-list-membership", "", fmt.Sprintf("approve(%q, %q) = %v", cls, allowed, got), nil)
+		}
+		u, pw := credGen(), credGen()
+		tok, next, err := gocql.PasswordAuthenticator{Username: string(u), Password: string(pw), AllowedAuthenticators: strs(allowed)}.Challenge(cls)
+		out := "None"
+		if err == nil {
+			out = hlib.Some(hlib.ZList(tok))
+		}
+		idx = o.Case("challenge", true, fmt.Sprintf("CChallenge %s %s %s %s %s", hlib.ZList(u), hlib.ZList(pw), bytesListTerm(allowed), hlib.ZList(cls), out))
+		in := map[string]interface{}{"class": string(cls), "allowed": strs(allowed)}
+		if err == nil && !approvedBy(cls, allowed) {
+			o.Violate(idx, "token-only-if-approved", "", fmt.Sprintf("Challenge(%q) produced a token although the class is not approved", cls), in)
+		}
+		if err != nil && approvedBy(cls, allowed) {
+			o.Violate(idx, "approved-class-rejected", "", fmt.Sprintf("Challenge(%q) = %v", cls, err), in)
+		}
+		if err == nil && (!bytes.Equal(tok, plainToken(u, pw)) || next != nil) {
+			o.Violate(idx, "token-is-sasl-plain", "", fmt.Sprintf("token %x for user %x password %x", tok, u, pw), in)
+		}
+	}
+
+	// ===== 6. the connection handshake against the scripted responder ============================
+	okClass := []byte(defaults[0])
+	customClass := []byte("com.example.auth.CustomAuthenticator")
+	badClass := []byte("org.apache.cassandra.auth.AllowAllAuthenticator")
+	nearClass := append([]byte(defaults[0]), ' ')
+	auths := []AuthSpec{
+		{Kind: 0},
+		{Kind: 1, User: []byte("cassandra"), Pass: []byte("s3cr3t-pass-0001")},
+		{Kind: 1, User: []byte("пользователь"), Pass: []byte("密碼-🔑-0002"), Allowed: [][]byte{customClass}},
+		{Kind: 1, User: []byte{}, Pass: []byte{}},
+		{Kind: 1, User: []byte("u\x00v"), Pass: []byte("s3cr3t-pass-0003"), Allowed: [][]byte{[]byte("x"), badClass}},
+		{Kind: 2, Script: []ReplySpec{{Data: []byte("r1"), Next: true}, {Data: []byte("r2"), Next: true}, {Data: []byte{}, Next: true}}, SuccOK: true},
+		{Kind: 2, Script: []ReplySpec{{Data: []byte("r1"), Next: false}}, SuccOK: true},
+		{Kind: 2, Script: []ReplySpec{{Data: []byte("r1"), Next: true}, {Err: true}}, SuccOK: false},
+		{Kind: 2, Script: []ReplySpec{{Err: true}}, SuccOK: true},
+		{Kind: 2, Script: []ReplySpec{{Data: []byte("r1"), Next: true}, {Data: []byte("r2"), Next: false}}, SuccOK: true},
+	}
+	alphabet := []FrameSpec{
+		{Kind: fSupported}, {Kind: fReady}, {Kind: fAuthenticate, Data: okClass}, {Kind: fAuthenticate, Data: customClass},
+		{Kind: fAuthenticate, Data: badClass}, {Kind: fAuthChallenge, Data: []byte("ch")}, {Kind: fAuthSuccess, Data: []byte{}},
+		{Kind: fError, Code: 0x0100}, {Kind: fOther},
+	}
+	var scenarios []Scenario
+	maxLen := 2
+	if thorough {
+		maxLen = 3
+	}
+	var gen func(prefix []FrameSpec, depth int, a AuthSpec)
+	gen = func(prefix []FrameSpec, depth int, a AuthSpec) {
+		scenarios = append(scenarios, Scenario{Auth: a, Frames: append([]FrameSpec(nil), prefix...), Proto: 4})
+		if depth == 0 {
+			return
+		}
+		for _, f := range alphabet {
+			gen(append(prefix, f), depth-1, a)
+		}
+	}
+	for _, a := range auths {
+		gen(nil, maxLen, a)
+	}
+	// directed: SUPPORTED, AUTHENTICATE(c), then every pair from the alphabet (the authentication loop)
+	for _, a := range auths {
+		for _, c := range [][]byte{okClass, customClass} {
+			for _, f1 := range alphabet {
+				for _, f2 := range alphabet {
+					if !thorough && r.Intn(100) >= 35 {
+						continue
+					}
+					scenarios = append(scenarios, Scenario{Auth: a, Proto: 3 + r.Intn(2), Frames: []FrameSpec{{Kind: fSupported}, {Kind: fAuthenticate, Data: c}, f1, f2}})
+				}
+			}
+		}
+	}
+	// random: arbitrary class names, credentials, allowed lists, error codes, longer challenge loops
+	errCodes := []int{0x0000, 0x000A, 0x0100, 0x1001, 0x1002, 0x1003, 0x2000, 0x2100, 0x2200, 0x2300}
+	for i := 0; i < 250*o.Scale; i++ {
+		var a AuthSpec
+		cls := classGen()
+		if r.Chance(20) {
+			cls = [][]byte{okClass, nearClass, customClass}[r.Intn(3)]
+		}
+		switch r.Intn(5) {
+		case 0:
+			a = AuthSpec{Kind: 0}
+		case 1, 2, 3:
+			a = AuthSpec{Kind: 1, User: credGen(), Pass: credGen(), Allowed: allowedGen(cls)}
+		default:
+			a = AuthSpec{Kind: 2, SuccOK: r.Chance(80)}
+			for k := r.Intn(5); k >= 0; k-- {
+				a.Script = append(a.Script, ReplySpec{Err: r.Chance(10), Data: r.Bytes(r.Intn(5)), Next: r.Chance(85)})
+			}
+		}
+		fs := []FrameSpec{{Kind: fSupported}}
+		if r.Chance(8) {
+			fs = nil
+		}
+		switch r.Intn(6) {
+		case 0:
+			fs = append(fs, FrameSpec{Kind: fReady})
+		case 1:
+			fs = append(fs, FrameSpec{Kind: fError, Code: errCodes[r.Intn(len(errCodes))]})
+		default:
+			fs = append(fs, FrameSpec{Kind: fAuthenticate, Data: cls})
+			for k := r.Intn(5); k > 0; k-- {
+				if r.Chance(75) {
+					fs = append(fs, FrameSpec{Kind: fAuthChallenge, Data: r.Bytes(r.Intn(6))})
+				} else {
+					fs = append(fs, alphabet[r.Intn(len(alphabet))])
+				}
+			}
+			switch r.Intn(5) {
+			case 0:
+				fs = append(fs, FrameSpec{Kind: fError, Code: errCodes[r.Intn(len(errCodes))]})
+			case 1:
+			default:
+				fs = append(fs, FrameSpec{Kind: fAuthSuccess, Data: r.Bytes(r.Intn(4))})
+			}
+		}
+		if r.Chance(15) {
+			fs = append(fs, alphabet[r.Intn(len(alphabet))])
+		}
+		scenarios = append(scenarios, Scenario{Auth: a, Frames: fs, Proto: 3 + r.Intn(2)})
+	}
+	outcomes := map[int]int{}
+	results, workers := runBatch(o.Dir, scenarios)
+	for i, s := range scenarios {
+		res := results[i]
+		outcomes[res.Code]++
+		kind := fmt.Sprintf("handshake/auth%d", s.Auth.Kind)
+		idx := o.Case(kind, len(s.Frames) > 1, fmt.Sprintf("CHandshake %s %s %d %d %s %d %d", authTerm(s.Auth), framesTerm(s.Frames), res.Code, res.Srv, bytesListTerm(res.Toks), res.NOpt, res.NStart))
+		handshakeMonitors(o, idx, s, res, approvedBy, plainToken)
+	}
+	o.Extra["handshake_worker_processes"] = workers
+	o.Extra["handshake_outcomes"] = fmt.Sprint(outcomes)
+
+	// ===== 7. the whole chain: ClusterConfig.SslOpts -> connConfig -> dial -> WrapTLS -> handshake
+	chainN := 0
+	chainScripts := []struct {
+		a  AuthSpec
+		fs []FrameSpec
+	}{
+		{AuthSpec{Kind: 0}, []FrameSpec{{Kind: fSupported}, {Kind: fReady}}},
+		{AuthSpec{Kind: 0}, []FrameSpec{{Kind: fSupported}, {Kind: fAuthenticate, Data: okClass}, {Kind: fAuthSuccess}}},
+		{auths[1], []FrameSpec{{Kind: fSupported}, {Kind: fAuthenticate, Data: okClass}, {Kind: fAuthSuccess, Data: []byte{}}}},
+		{auths[1], []FrameSpec{{Kind: fSupported}, {Kind: fAuthenticate, Data: badClass}, {Kind: fAuthSuccess, Data: []byte{}}}},
+	}
+	var chainSSL []*sslCase
+	chainSSL = append(chainSSL, nil)
+	validCA, garbageCA, missingCA := byClassCA[1][0], byClassCA[3][0], byClassCA[2][0]
+	absentCA, absentKP := byClassCA[0][0], byClassKP[0][0]
+	for _, sh := range shapes {
+		for _, hv := range []bool{false, true} {
+			for _, ca := range []caFile{absentCA, validCA, garbageCA, missingCA} {
+				sc := sslCase{configNil: sh.configNil, insecure: sh.insecure, hasRoots: sh.hasRoots, hv: hv, ca: ca, kp: absentKP}
+				if sh.named {
+					sc.name = "node1.cass.example"
+				}
+				if sh.hasRoots {
+					sc.roots = poolChoices[r.Intn(len(poolChoices))]
+				}
+				if r.Chance(15) {
+					sc.kp = kpVariants[r.Intn(len(kpVariants))]
+				}
+				c := sc
+				chainSSL = append(chainSSL, &c)
+			}
+		}
+	}
+	for _, sc := range chainSSL {
+		for _, hf := range hostForms {
+			for _, sv := range serverCerts {
+				for si, cs := range chainScripts {
+					keep := 12
+					if thorough {
+						keep = 100
+					}
+					if sc != nil && r.Intn(100) >= keep {
+						continue
+					}
+					if sc == nil && (sv.kind != serverCerts[0].kind) {
+						continue
+					}
+					chainN++
+					runChain(o, p, sc, hf.hostname, hf.ip, sv, cs.a, cs.fs, si, approvedBy, plainToken)
+				}
+			}
+		}
+	}
+	o.Extra["chain_runs"] = chainN
+
+	// ===== 8. session creation through the public constructor and the real connection pool ======
+	sessionRuns(o, p, okClass, badClass, plainToken)
+
+	o.Finish("From GocqlV Require Import Lib.Base C20.Model C20.Corr.", "C20.Corr.case", "C20.Corr.run")
+}
+
+func sortInts(l []int) {
+	for i := 1; i < len(l); i++ {
+		for j := i; j > 0 && l[j-1] > l[j]; j-- {
+			l[j-1], l[j] = l[j], l[j-1]
+		}
+	}
+}
+
+func containsStr(l []string, x string) bool {
+	for _, y := range l {
+		if y == x {
+			return true
+		}
+	}
+	return false
+}
+
+func strListTerm(l []string) string {
+	ss := make([]string, len(l))
+	for i, s := range l {
+		ss[i] = hlib.ZList([]byte(s))
+	}
+	return hlib.List(ss)
+}
+
+// property monitors of the authentication handshake, from the property text, evaluated on what the
+// scripted server sent and received
+func handshakeMonitors(o *hlib.Out, idx int, s Scenario, res HsResult, approvedBy func([]byte, [][]byte) bool, plainToken func(u, p []byte) []byte) {
+	in := map[string]interface{}{"auth_kind": s.Auth.Kind, "frames": framesTerm(s.Frames), "result_code": res.Code, "error": res.ErrText}
+	sent := s.Frames
+	if res.Code != 5 && res.Sent <= len(sent) {
+		sent = sent[:res.Sent]
+	}
+	var classes [][]byte
+	sawAuthenticate := false
+	for _, f := range sent {
+		if f.Kind == fAuthenticate {
+			sawAuthenticate = true
+			classes = append(classes, f.Data)
+		}
+	}
+	if res.Code == 6 {
+		o.Violate(idx, "handshake-unclassified", "", res.ErrText, in)
+	}
+	if s.Auth.Kind == 1 {
+		tok := plainToken(s.Auth.User, s.Auth.Pass)
+		for _, t := range res.Toks {
+			if !bytes.Equal(t, tok) {
+				o.Violate(idx, "token-is-sasl-plain", "", fmt.Sprintf("AUTH_RESPONSE %x, want %x", t, tok), in)
+			}
+			ok := false
+			for _, c := range classes {
+				if approvedBy(c, s.Auth.Allowed) {
+					ok = true
+				}
+			}
+			if !ok {
+				o.Violate(idx, "token-only-if-approved", "", fmt.Sprintf("password token sent; AUTHENTICATE classes offered %q, allowed %q", classes, s.Auth.Allowed), in)
+			}
+		}
+		if len(res.Toks) > 1 {
+			o.Violate(idx, "token-sent-twice", "", fmt.Sprintf("%d AUTH_RESPONSE frames from PasswordAuthenticator", len(res.Toks)), in)
+		}
+		// the password appears nowhere else on the wire
+		if len(s.Auth.Pass) >= 8 {
+			for _, b := range res.OtherReqs {
+				if bytes.Contains(b, s.Auth.Pass) {
+					o.Violate(idx, "password-outside-auth-response", "", "the password occurs in a request other than AUTH_RESPONSE", in)
+				}
+			}
+		}
+	}
+	if s.Auth.Kind == 0 {
+		if len(res.Toks) > 0 {
+			o.Violate(idx, "no-auth-no-token", "", "AUTH_RESPONSE sent without an authenticator", in)
+		}
+		if sawAuthenticate && res.Code == 0 {
+			o.Violate(idx, "no-auth-no-session", "", "server demanded authentication, no authenticator configured, connection established", in)
+		}
+	}
+	if res.Code == 0 {
+		// established: the server's last word was READY (and it never asked for authentication) or AUTH_SUCCESS
+		if len(sent) == 0 {
+			o.Violate(idx, "established-without-ready", "", "established although the server sent nothing", in)
+		} else {
+			last := sent[len(sent)-1]
+			if !(last.Kind == fReady && !sawAuthenticate) && !(last.Kind == fAuthSuccess && sawAuthenticate) {
+				o.Violate(idx, "unauthenticated-session", "", fmt.Sprintf("established after %s", framesTerm(sent)), in)
+			}
+		}
+	}
 }
